@@ -49,6 +49,16 @@ def section_of(wo):
     return TABLES[wo][1] if wo else ""
 
 
+# the keyword `usage:` is case-insensitive (syntax.md): table ids H1/H2 are option-free tables with another spelling
+HEADERS = {"H1": "usage:", "H2": "USAGE:"}
+TABLES["H1"] = ([], "")
+TABLES["H2"] = ([], "")
+
+
+def header_of(wo):
+    return HEADERS.get(wo, "Usage:")
+
+
 def cname(o):
     return o[1] if o[1] else o[0]
 
@@ -128,10 +138,11 @@ def commands_of(lines):
 
 
 def script_text(lines, with_opts):
+    h = header_of(with_opts)
     if len(lines) == 1:
-        u = "# Usage: prog %s\n" % show(lines[0])
+        u = "# %s prog %s\n" % (h, show(lines[0]))
     else:
-        u = "# Usage:\n" + "".join("#   prog %s\n" % show(l) for l in lines)
+        u = "# %s\n" % h + "".join("#   prog %s\n" % show(l) for l in lines)
     return "#!/usr/bin/env rash\n#\n" + u + "#\n" + section_of(with_opts) + "- debug:\n    msg: x\n"
 
 
@@ -255,6 +266,11 @@ def family_usages():
     sp, md, dp, q3 = o('speed', '--speed=<kn>'), o('mode', '-m MODE'), o('depth', '--depth=<n>'), o('q', '-q')
     for l in ([('seq', [('anyopts',), x])], [('seq', [opt(sp), opt(q3), x])], [('seq', [opt(md), opt(dp), ('optional', x)])], [('seq', [a, ('anyopts',)])]):
         out.append((l, "T3", av4))
+    # F8: the `usage:` keyword in other spellings, one and several usage lines
+    av8 = [list(t) for n in range(0, 4) for t in itertools.product(['a', 'b', 'v'], repeat=n)]
+    for hid in ("H1", "H2"):
+        for ls in ([('seq', [a, opt(x)])],), ([('seq', [a, opt(x)])], [('seq', [b, opt(y)])]), ([('seq', [a])], [('seq', [b])], [('seq', [x, y])]):
+            out.append(([l[0] for l in ls], hid, av8))
     # F5: upper-case positionals, `<x> ...` with a blank before the dots
     F, G = ('pos', 'FILE'), ('pos', 'MY-ARG')
     av5 = [list(t) for n in range(0, 5) for t in itertools.product(['a', 'v', 'w'], repeat=n)]
